@@ -285,3 +285,219 @@ def covering_files(files, want=None):
         chosen.append(-mi)
         covered |= keys[-mi]
     return [files[i] for i in chosen]
+
+
+# ---------------------------------------------------------------------------------------------
+# added after C20-r4-1/2/3 were missed
+# ---------------------------------------------------------------------------------------------
+def renderer_keys(repo_src: Path):
+    """descriptor keys the compositor consumes, derived from its source (`Key.X` mentions in composite/*.py and
+    api/effects.py): the items whose absence / out-of-range value the renderer has to tolerate or refuse"""
+    import re
+    from psd_tools.terminology import Key
+    names = set()
+    for f in list((repo_src / "composite").glob("*.py")) + [repo_src / "api" / "effects.py"]:
+        try:
+            names |= set(re.findall(r"\bKey\.(\w+)", f.read_text()))
+        except OSError:
+            pass
+    return {getattr(Key, n).value: n for n in sorted(names) if hasattr(Key, n)}
+
+
+def descriptor_variants(files, scratch: Path, rng, cap, repo_src: Path):
+    """Copies of fixtures with effect / fill / stroke descriptors in which ONE item that the renderer reads is deleted or
+    given an out-of-range value (damaged or incomplete in ways a tolerant renderer accepts): (path, description).
+    One variant per (descriptor class, item key, mutation); files visited smallest first."""
+    import io
+    from psd_tools.psd import PSD
+    from psd_tools.psd.base import BaseElement
+    from psd_tools.psd import descriptor as D
+    keys = renderer_keys(repo_src)
+    out, seen = [], set()
+    plans = []
+    for f in files:
+        try:
+            with open(f, "rb") as fp:
+                psd = PSD.read(fp)
+            li = psd.layer_and_mask_information.layer_info
+            recs = (li.layer_records if li is not None else None) or []
+        except Exception:  # noqa
+            continue
+        for ri, rec in enumerate(recs):
+            for bkey, blk in rec.tagged_blocks.items():
+                descs = list(BaseElement._traverse(blk.data, lambda e: isinstance(e, D.Descriptor)))
+                for di, d in enumerate(descs):
+                    for k in list(d.keys()):
+                        kb = bytes(k)
+                        if kb not in keys:
+                            continue
+                        v = d[k]
+                        muts = ["delete"]
+                        if isinstance(v, (D.Integer, D.LargeInteger)):
+                            muts += ["negative", "huge"]
+                        elif isinstance(v, (D.Double, D.UnitFloat)):
+                            muts += ["negative", "huge"]
+                        elif isinstance(v, D.Bool):
+                            muts += ["flip"]
+                        elif isinstance(v, D.List):
+                            muts += ["empty"]
+                        for m in muts:
+                            cls_id = bytes(d.classID)
+                            if (cls_id, kb, m) in seen:
+                                continue
+                            seen.add((cls_id, kb, m))
+                            plans.append((f, ri, bkey, di, kb, m, cls_id))
+    # the optional items first (deleted), then perturbed values; an even spread over the keys
+    plans.sort(key=lambda p: (p[5] != "delete", p[5] != "negative"))
+    if cap is not None and len(plans) > cap:
+        head = [p for p in plans if p[5] in ("delete", "negative")]
+        rest = [p for p in plans if p[5] not in ("delete", "negative")]
+        rng.shuffle(rest)
+        plans = (head + rest)[:cap] if len(head) <= cap else rng.sample(head, cap)
+    for n, (f, ri, bkey, di, kb, m, cls_id) in enumerate(plans):
+        try:
+            with open(f, "rb") as fp:
+                psd = PSD.read(fp)
+            blk = psd.layer_and_mask_information.layer_info.layer_records[ri].tagged_blocks[bkey]
+            d = list(BaseElement._traverse(blk.data, lambda e: isinstance(e, D.Descriptor)))[di]
+            k = next(x for x in d.keys() if bytes(x) == kb)
+            v = d[k]
+            if m == "delete":
+                del d[k]
+            elif m == "negative":
+                v.value = -77 if isinstance(v, (D.Integer, D.LargeInteger)) else -1.0e9
+            elif m == "huge":
+                v.value = 2 ** 31 - 1 if isinstance(v, (D.Integer, D.LargeInteger)) else 1.0e9
+            elif m == "flip":
+                v.value = not v.value
+            elif m == "empty":
+                del v[:]
+            p = scratch / ("dv%03d-%s-%s-%s-%s%s" % (n, Path(f).stem[:24], keys[kb], m,
+                                                     getattr(bkey, "name", str(bkey))[:12], Path(f).suffix))
+            with open(p, "wb") as fp:
+                psd.write(fp)
+            out.append((p, "%s: %s.%s %s (block %s of record %d)" % (Path(f).name, cls_id.decode("latin1"), keys[kb], m,
+                                                                     getattr(bkey, "name", bkey), ri)))
+        except Exception:  # noqa
+            continue
+    return out
+
+
+# -- public entry points with options, by reflection
+_VALUE_POOL = [1, 2, 0, True, "shift_jis", "utf_8", [0, 0, 2, 2], 0.5, "color", "shape", "mask", -1]
+
+
+def option_calls():
+    """(target, method, {option: non-default value}) for every public entry point of PSDImage / Layer / composite that
+    has options: parameters with defaults from the signature, `:param name:` entries of the docstring for entry points
+    that pass `**kwargs` on, plus the keyword options of the low-level readers / writers they reach."""
+    import codecs
+    import inspect
+    import re
+    from psd_tools import PSDImage
+    from psd_tools.api.layers import Layer
+    from psd_tools.psd import PSD
+    calls = []
+    low = {}
+    for fn in (PSD.read, PSD.write):
+        for n, p in inspect.signature(fn).parameters.items():
+            if p.default is not inspect.Parameter.empty:
+                low[n] = p.default
+    from psd_tools.psd.layer_and_mask import LayerAndMaskInformation, LayerInfo
+    for kls in (LayerAndMaskInformation, LayerInfo):
+        for fn in (getattr(kls, "read", None), getattr(kls, "write", None)):
+            if fn is None:
+                continue
+            for n, p in inspect.signature(fn).parameters.items():
+                if p.default is not inspect.Parameter.empty and n not in ("version",):
+                    low.setdefault(n, p.default)
+
+    def values(name, default):
+        if isinstance(default, bool):
+            return [not default]
+        if isinstance(default, int):
+            return sorted({1, 2, default * 2} - {default})
+        if isinstance(default, float):
+            return [0.5 if default != 0.5 else 0.25]
+        if isinstance(default, str):
+            try:
+                codecs.lookup(default)
+                return ["shift_jis", "utf_8"]
+            except LookupError:
+                return ["x"]
+        return list(_VALUE_POOL)
+
+    for target, owner in (("doc", PSDImage), ("layer", Layer)):
+        for name, fn in sorted(vars(owner).items()):
+            if name.startswith("_"):
+                continue
+            f = fn.__func__ if isinstance(fn, (classmethod, staticmethod)) else fn
+            if not inspect.isfunction(f):
+                continue
+            sig = inspect.signature(f)
+            opts = {}
+            var_kw = False
+            for n, p in sig.parameters.items():
+                if p.kind is inspect.Parameter.VAR_KEYWORD:
+                    var_kw = True
+                elif p.default is not inspect.Parameter.empty:
+                    opts[n] = p.default
+            if var_kw:
+                for n in re.findall(r":param (\w+):", f.__doc__ or ""):
+                    if n not in sig.parameters:
+                        opts.setdefault(n, low.get(n))
+                if name in ("open", "save"):
+                    for n, d in low.items():
+                        opts.setdefault(n, d)
+            if not opts or name not in ENTRY_POINTS:
+                continue
+            for n, d in sorted(opts.items()):
+                for v in values(n, d):
+                    calls.append((target, name, {n: v}))
+    return calls
+
+
+# what the sessions know how to call (everything else with options is listed in the evidence as not exercised)
+ENTRY_POINTS = ("open", "save", "composite", "topil", "numpy", "new", "frompil")
+
+
+def option_steps(files, rng, cap):
+    calls = option_calls()
+    steps = []
+    for i, (target, name, kw) in enumerate(calls):
+        f = files[i % len(files)]
+        steps.append(("kwcall", json.dumps([str(f), target, name, kw], separators=(",", ":"))))
+    if cap is not None and len(steps) > cap:
+        # keep every (entry point, option) at least once
+        first, rest, seen = [], [], set()
+        for st in steps:
+            a = json.loads(st[1])
+            k = (a[1], a[2], tuple(a[3]))
+            (first if k not in seen else rest).append(st)
+            seen.add(k)
+        rng.shuffle(rest)
+        steps = (first + rest)[:max(cap, len(first))]
+    return steps
+
+
+def cross_document_scripts(sources, rng, n_random):
+    """Sessions with THREE documents and two or more cross-document moves into one target. `sources`: fixture paths whose
+    layers carry what the library copies between documents on adoption (pattern effects, linked smart objects, ...).
+    Every script is ["xdoc", [paths...], [[src doc, layer index, dst doc] ...]]; document 0 is a freshly built target
+    when the path is "new"."""
+    out = []
+    srcs = [str(s) for s in sources]
+    if len(srcs) < 2:
+        return out
+    pairs = [(a, b) for a in srcs for b in srcs if a != b]
+    fixed = pairs[: min(len(pairs), 6)]
+    for a, b in fixed:
+        out.append(("xdoc_script", json.dumps(["new", a, b, [[1, "fx", 0], [2, "fx", 0]]], separators=(",", ":"))))
+    for _ in range(n_random):
+        a, b = rng.choice(pairs)
+        tgt = rng.choice(["new", "new", rng.choice(srcs)])
+        moves = [[rng.choice([1, 2]), rng.choice(["fx", "fx", rng.randrange(0, 4)]), 0] for _ in range(rng.randrange(2, 5))]
+        if rng.random() < 0.3:
+            moves.append([0, 0, rng.choice([1, 2])])
+        out.append(("xdoc_script", json.dumps([tgt, a, b, moves], separators=(",", ":"))))
+    return out
